@@ -1375,6 +1375,23 @@ func (e *Engine) opForward() {
 	e.St.Forwarded++
 }
 
+// opCloseLocked: closing a locked shim must fail and leave it usable (an unlocked shim is not closed mid-history).
+func (e *Engine) opCloseLocked() {
+	if !e.locked {
+		return
+	}
+	ub := e.snapshotU()
+	err := e.Shim.Close()
+	e.log("close", "while locked", errStr(err))
+	e.St.LockedOps++
+	if err == nil {
+		e.disc([]string{"C08"}, "locked-close-succeeds", "Close while locked returned nil")
+		e.hung = true // the connection is gone; end the history
+		return
+	}
+	e.checkUnchanged(ub, e.snapshotU(), "close while locked")
+}
+
 // opNilKeys passes nil keys: every operation must refuse them with an error (a crash is caught by the caller's guard).
 func (e *Engine) opNilKeys() {
 	ub := e.snapshotU()
@@ -1427,7 +1444,7 @@ func (e *Engine) Run() {
 		ops = append(ops, wop{"nil-keys", w("nil-keys", 0), e.opNilKeys})
 	}
 	if e.Cfg.LockOps {
-		ops = append(ops, wop{"lock", w("lock", 6), e.opLock}, wop{"unlock", w("unlock", 8), e.opUnlock})
+		ops = append(ops, wop{"lock", w("lock", 6), e.opLock}, wop{"unlock", w("unlock", 8), e.opUnlock}, wop{"close-locked", w("close-locked", 1), e.opCloseLocked})
 	}
 	if e.Cfg.DirectLock {
 		ops = append(ops, wop{"direct-lock", w("direct-lock", 2), e.directLock})
